@@ -146,33 +146,43 @@ Theorem C15_second_pass_lines : forall para para',
 Proof. exact second_pass_lines. Qed.
 Print Assumptions C15_second_pass_lines.
 
-(* no_widen_72: FALSE of the faithful model (DESIGN.md section 8, item 8) *)
+(* no_widen_72: still FALSE of the faithful model for a value that follows its operator
+   without any blank in a line of exactly 72 columns (no separator fits) *)
 Definition C15_no_widen_72_full : Prop := no_widen_72_full.
 Theorem C15_no_widen_72_refuted : ~ C15_no_widen_72_full.
 Proof. exact no_widen_72_refuted. Qed.
 Print Assumptions C15_no_widen_72_refuted.
 
-(* it holds -- no line gets wider at all -- for every line whose value column is not
-   to the left of the common column and, if the line sticks out, has a blank already *)
+(* it holds for every line whose value is separated from the operator by at least one blank *)
 Theorem C15_no_widen_72_partial : forall para para',
   Forall single_ok para -> para <> [] -> realign_lines para = Ok para' ->
-  Forall2 (fun p p' => not_shifted (optimalWidth para) p -> line_width p' <= line_width p) para para'.
+  Forall2 (fun p p' => sbv p <> [] -> sav p = [] -> line_width p <= 72 -> line_width p' <= 72) para para'.
 Proof. exact no_widen_72_partial. Qed.
 Print Assumptions C15_no_widen_72_partial.
+
+(* and no line gets wider at all if the common column is not to the right of its value column *)
+Theorem C15_no_widen_not_shifted : forall para para',
+  Forall single_ok para -> para <> [] -> realign_lines para = Ok para' ->
+  Forall2 (fun p p' => not_shifted (optimalWidth para) p -> line_width p' <= line_width p) para para'.
+Proof. exact no_widen_not_shifted. Qed.
+Print Assumptions C15_no_widen_not_shifted.
 
 (* ===== the hypotheses are satisfiable, the guards are not vacuous ===== *)
 
 Example C15_witness_paragraph :
   Forall single_ok w72_para /\ Forall small w72_para /\ Forall (fun p => vo p <> []) w72_para /\
   realign_lines w72_para = Ok w72_after /\
-  line_width w72_a = 68 /\ line_width (set_sbv w72_a [9; 9]%N) = 76 /\
-  not_shifted (optimalWidth w72_para) w72_long /\ ~ not_shifted (optimalWidth w72_para) w72_a.
+  line_width w72_e = 72 /\ line_width (set_sbv w72_e [9; 9]%N) = 86 /\
+  sbv w72_long <> [] /\ sbv w72_e = [].
 Proof.
   split; [exact w72_ok|]. split; [repeat constructor|].
   split; [repeat constructor; discriminate|]. split; [exact w72_run|].
-  split; [apply w72_widths|]. split; [apply w72_widths|].
-  split; [exact w72_guard_holds|exact w72_guard_fails].
+  split; [apply w72_widths|]. split; [apply w72_widths|]. split; [discriminate|reflexivity].
 Qed.
+
+(* the paragraph of DESIGN.md section 8 item 8 is left alone now *)
+Example C15_witness_repaired : realign_lines [w72_long; w72_a] = Ok [w72_long; w72_a].
+Proof. exact w72_repaired. Qed.
 
 Example C15_witness_commented :
   fixSpaceAfterVarname sav_raws [86]%N [32]%N [61]%N sav_parts = Ok [[35; 86; 61; 9; 118]%N].
